@@ -217,6 +217,29 @@ def mutations(cfg, units, k, r):
     if ct != 22:
         return
     msgs = hs_msgs(cfg, content)
+    # grow a length-prefixed vector inside a handshake message (its elements repeated), all enclosing
+    # lengths kept consistent: element-count limits of the parsers (fixed-size tables in ssl_t)
+    for (t, Lh, msn, off, fl, body, s, e) in msgs[:2]:
+        if d and not (off == 0 and fl == Lh): continue
+        vc = []
+        for o in range(len(body)):
+            for w in (1, 2):
+                if o + w > len(body): continue
+                v = int.from_bytes(body[o:o + w], "big")
+                if 2 <= v <= len(body) - o - w: vc.append((o, w, v))
+        r.shuffle(vc)
+        for (o, w, v) in vc[:12]:
+            elems = body[o + w:o + w + v]
+            for reps in (2, 9, 17, 33, 65, 130, 600):
+                nv = v * reps
+                if nv >= (1 << (8 * w)) or nv > 30000: break
+                # enclosing vectors: every earlier field whose range covers this one grows by the same amount
+                nb = bytearray(body[:o] + nv.to_bytes(w, "big") + elems * reps + body[o + w + v:])
+                delta = nv - v
+                for (o2, w2, v2) in vc_enclosing(body, o, w, v):
+                    nb[o2:o2 + w2] = ((v2 + delta) & ((1 << (8 * w2)) - 1)).to_bytes(w2, "big")
+                nb = bytes(nb)
+                yield ("vecgrow", "e" + nf, [u.rec(content[:s] + hs_hdr(cfg, t, len(nb), msn, 0, len(nb) if d else None) + nb + content[e:])])
     for (t, Lh, msn, off, fl, body, s, e) in msgs[:3]:
         pre, post = content[:s], content[e:]
         # handshake length field
@@ -286,6 +309,24 @@ def mutations(cfg, units, k, r):
             # unfragmented header but short body (the non-DTLS reassembly path must not be entered)
             yield ("d-unfrag-short", "e" + nf, [u.rec(hs_hdr(cfg, t, Lh + 50, msn, 0, Lh + 50) + B)])
         # extension-ish: 16-bit lengths near the end of hello messages are covered by `lenfield`
+
+
+def vc_enclosing(body, o, w, v):
+    """length fields before offset o whose vector ends exactly where a vector containing [o, o+w+v) could end"""
+    out = []
+    end = o + w + v
+    for o2 in range(max(0, o - 600), o):
+        for w2 in (2, 3, 1):
+            if o2 + w2 > o: continue
+            v2 = int.from_bytes(body[o2:o2 + w2], "big")
+            if o2 + w2 + v2 >= end and o2 + w2 + v2 <= len(body) and v2 >= v + w:
+                out.append((o2, w2, v2)); break
+    # keep only a nested chain (each one contains the next)
+    chain, lo = [], -1
+    for (o2, w2, v2) in out:
+        if not chain or (o2 + w2 + v2 <= chain[-1][0] + chain[-1][1] + chain[-1][2]):
+            chain.append((o2, w2, v2))
+    return chain
 
 
 def build_cases(caps, rng, per_state, classes_seen):
@@ -370,3 +411,443 @@ def corpus_lines(sub):
                 l = l.strip()
                 if l and not l.startswith("#"): out.append(l)
     return out
+
+
+# ------------------------------------------------------------------ unit operations (model correspondence)
+HS_TOK = re.compile(r" [HIFS]\d")
+
+
+def canon_pair(impl, model):
+    """compare segment by segment; once the model hands a message to hash + parser (class U, the parsers are not
+    modelled) only the hash log of that call is compared and the rest is ignored"""
+    a, b = impl.strip().split(" | "), model.strip().split(" | ")
+    oa, ob = [], []
+    for i, sb in enumerate(b):
+        sa = a[i] if i < len(a) else "<missing>"
+        if sb.startswith("U"):
+            ta = HS_TOK.search(sa); tb = HS_TOK.search(sb)
+            oa.append("handoff" + (sa[ta.start():] if ta else "")); ob.append("handoff" + (sb[tb.start():] if tb else ""))
+            return " | ".join(oa), " | ".join(ob)
+        oa.append(sa); ob.append(sb)
+    oa += a[len(b):]
+    return " | ".join(oa), " | ".join(ob)
+
+
+def dtls_rec(seq, body, ver=b"\xfe\xfd", typ=22, epoch=0):
+    return bytes([typ]) + ver + epoch.to_bytes(2, "big") + seq.to_bytes(6, "big") + len(body).to_bytes(2, "big") + body
+
+
+def tls_rec(body, ver=b"\x03\x03", typ=22):
+    return bytes([typ]) + ver + len(body).to_bytes(2, "big") + body
+
+
+def gen_hdr(r, n):
+    """(harness line, None): record header / epoch gate cases"""
+    ctxs = [("t12", 1, "c", False, b"\x03\x03"), ("t12", 0, "s", False, b"\x03\x03"), ("t11", 1, "c", False, b"\x03\x02"),
+            ("d12", 1, "c", True, b"\xfe\xfd"), ("d12", 0, "s", True, b"\xfe\xfd"), ("d10", 1, "c", True, b"\xfe\xff")]
+    vers = [b"\x03\x00", b"\x03\x01", b"\x03\x02", b"\x03\x03", b"\x03\x04", b"\xfe\xff", b"\xfe\xfd", b"\xfe\xfc", b"\x02\x00", b"\x7f\x1c", b"\x00\x00"]
+    out = []
+    for _ in range(n):
+        cfg, k, side, d, ver = r.choice(ctxs)
+        hs = r.choice(["-", "-", "-", "20", "255", "1", "2", "16"])
+        exp = r.choice(["-", "-", "0", "1", "2", "65535"]) if d else "-"
+        pccs, ade = r.choice("01"), r.choice("001")
+        def one(first_seq):
+            t = r.choice([22, 22, 22, 20, 21, 23, 0, 19, 24, 0x80, 0xff])
+            v = ver if r.random() < 0.7 else r.choice(vers)
+            bl = r.choice([0, 1, 1, 2, 5, 12, 40])
+            body = bytes(r.randrange(256) for _ in range(bl))
+            L = r.choice([bl, bl, bl, bl, bl + 1, max(0, bl - 1), 0, 18432, 18433, 0xFFFF])
+            if d or (v[0] == 0xfe and r.random() < 0.5):
+                ep = r.choice([0, 0, 1, 1, 2, 0xFFFF])
+                sq = r.choice([first_seq, first_seq, 0, 1, 40, (1 << 48) - 1])
+                return bytes([t]) + v + ep.to_bytes(2, "big") + sq.to_bytes(6, "big") + L.to_bytes(2, "big") + body
+            return bytes([t]) + v + L.to_bytes(2, "big") + body
+        data = one(0)
+        if d and r.random() < 0.6:
+            # more in the datagram: the epoch-skip / replay-skip loop and the CCS + Finished skip
+            tail = r.choice(["rec", "rec", "ccs", "byte", "hdr", "big"])
+            if tail == "rec": data += one(1)
+            elif tail == "ccs": data = b"\x14" + ver + r.choice([0, 1, 2]).to_bytes(2, "big") + bytes(6) + b"\x00\x01\x01" + r.choice([b"", b"\x16", b"\x17", one(1), one(1)[:r.randrange(1, 14)]])
+            elif tail == "byte": data += bytes([r.choice([22, 23, 0])])
+            elif tail == "hdr": data += one(1)[:r.randrange(1, 13)]
+            else: data += b"\x16" + ver + bytes(8) + b"\xff\xff"
+        if r.random() < 0.15: data = data[:r.randrange(0, len(data) + 1)]
+        if not data: data = b"\x16"
+        out.append("u hdr %s %d %s %s %s %s %s %s" % (cfg, k, side, hs, exp, pccs, ade, vlib.hexs(data)))
+    return out
+
+
+def gen_t13(r, n):
+    out = []
+    ccs = b"\x14\x03\x03\x00\x01\x01"
+    for _ in range(n):
+        cfg, k, side, valid = r.choice([("t13", 1, "c", 2), ("t13", 0, "s", 1)])
+        calls = []
+        t = r.choice([0xEE, 0, 8, 11, 15, 20, 4, 24])
+        hl = r.choice([0, 1, 3, 7, 20, 200, 65535, 65536, 65537, 0xFFFFFF])
+        body = bytes(r.randrange(256) for _ in range(min(hl, r.choice([0, 1, 3, 7, 20, 200]))))
+        msg = bytes([t]) + hl.to_bytes(3, "big") + body
+        kind = r.choice(["whole", "split", "split", "split3", "ccs", "ccsrec", "short", "junk", "trunc", "twomsg", "badccs", "reclen"])
+        if kind == "whole": calls = [tls_rec(msg)]
+        elif kind == "split":
+            i = r.randrange(1, len(msg)) if len(msg) > 1 else 1
+            calls = [tls_rec(msg[:i]), tls_rec(msg[i:] or b"\x00")]
+        elif kind == "split3":
+            cuts = sorted(r.randrange(0, len(msg) + 1) for _ in range(2))
+            calls = [tls_rec(x) for x in (msg[:cuts[0]], msg[cuts[0]:cuts[1]], msg[cuts[1]:]) if x]
+        elif kind == "ccs": calls = [ccs * r.choice([1, 2, 3, 5])]
+        elif kind == "ccsrec": calls = [ccs * r.choice([1, 2, 4]) + tls_rec(msg)[:r.choice([3, 5, 6, 9, 4000])]]
+        elif kind == "short": calls = [tls_rec(msg[:r.choice([1, 2, 3])])]
+        elif kind == "junk": calls = [tls_rec(bytes([t, 0, 0, 1, 9]) + bytes(r.randrange(256) for _ in range(r.choice([1, 2, 3]))))]
+        elif kind == "trunc": w = tls_rec(msg); calls = [w[:r.randrange(1, len(w) + 1)]]
+        elif kind == "twomsg": calls = [tls_rec(msg[:4 + len(body)]), tls_rec(bytes([t, 0, 0, 0]))]
+        elif kind == "badccs": calls = [r.choice([b"\x14\x03\x03\x00\x01\x02", b"\x14\x03\x03\x00\x02\x01\x01", b"\x14\x03\x03\x00\x00", ccs + b"\x18\x03\x03\x00\x01\x00"])]
+        else: calls = [tls_rec(b"", typ=22)[:3] + r.choice([0, 16640, 16641, 0xFFFF]).to_bytes(2, "big") + body]
+        if t == valid: continue
+        out.append("u t13 %s %d %s %s" % (cfg, k, side, " ".join(vlib.hexs(c) for c in calls if c)))
+    return out
+
+
+def gen_tls(r, n):
+    out = []
+    for _ in range(n):
+        cfg, k, side, hs, ver, mx = r.choice([("t12", 1, "c", 2, b"\x03\x03", 65536), ("t12", 0, "s", 1, b"\x03\x03", 1024), ("t11", 1, "c", 2, b"\x03\x02", 65536)])
+        t = hs if r.random() < 0.8 else r.choice([0, 1, 2, 11, 14, 20])
+        hl = r.choice([0, 1, 2, 5, 30, 300, mx - 1, mx, mx + 1, 0xFFFFFF])
+        have = min(hl, r.choice([0, 1, 2, 5, 30, 300]))
+        body = bytes(r.randrange(256) for _ in range(have))
+        msg = bytes([t]) + hl.to_bytes(3, "big") + body
+        rest = bytes(r.randrange(256) for _ in range(r.choice([0, 1, max(0, hl - have - 1), max(0, hl - have), hl - have + 1, hl - have + 5]) % 700))
+        kind = r.choice(["first", "first", "cont", "cont", "cont2", "hdrsplit", "short", "twice"])
+        rec = lambda b: tls_rec(b, ver)
+        if kind == "first": calls = [rec(msg)]
+        elif kind == "cont": calls = [rec(msg), rec(rest or b"\x00")]
+        elif kind == "cont2":
+            i = len(rest) // 2
+            calls = [rec(msg), rec(rest[:i] or b"\x01"), rec(rest[i:] or b"\x02")]
+        elif kind == "hdrsplit": calls = [rec(msg[:r.choice([1, 2, 3])]), rec(msg[3:])]
+        elif kind == "short": calls = [rec(bytes([t])), rec(msg)]
+        else: calls = [rec(msg), rec(msg)]
+        out.append("u tls %s %d %s %s" % (cfg, k, side, " ".join(vlib.hexs(c) for c in calls)))
+    return out
+
+
+def gen_dtls(r, n):
+    out = []
+    for _ in range(n):
+        cfg, k, side, hs, ver, mx = r.choice([("d12", 1, "c", 2, b"\xfe\xfd", 65536), ("d12", 0, "s", 1, b"\xfe\xfd", 1024), ("d10", 1, "c", 2, b"\xfe\xff", 65536)])
+        t = hs if r.random() < 0.9 else r.choice([0, 1, 2, 11, 14, 20])
+        H = r.choice([1, 2, 5, 10, 10, 16, 40, 40, 300, mx, mx + 1])
+        B = bytes(r.randrange(256) for _ in range(min(H, 400)))
+        msn = 0 if r.random() < 0.9 else r.choice([1, 2, 0xFFFF])
+        seq = [0]
+        def fr(o, l, hsl=None, m=None, data=None):
+            data = B[o:o + l] if data is None else data
+            body = bytes([t]) + (H if hsl is None else hsl).to_bytes(3, "big") + ((msn if m is None else m) & 0xFFFF).to_bytes(2, "big") + (o & 0xFFFFFF).to_bytes(3, "big") + (l & 0xFFFFFF).to_bytes(3, "big") + data
+            s = seq[0]; seq[0] += 1
+            return dtls_rec(s, body, ver)
+        n_ = min(H, 400)
+        kind = r.choice(["two", "two", "rev", "three", "dup", "overlap", "overlap2", "zero", "zerohang", "gap", "hslen", "msn", "many", "range", "biglen",
+                         "unfragshort", "whole", "beyond", "seen"])
+        i = r.randrange(1, n_) if n_ > 1 else 1
+        if kind == "two": calls = [fr(0, i), fr(i, n_ - i)]
+        elif kind == "rev": calls = [fr(i, n_ - i), fr(0, i)]
+        elif kind == "three":
+            j = r.randrange(i, n_ + 1)
+            parts = [(0, i), (i, j - i), (j, n_ - j)]; r.shuffle(parts)
+            calls = [fr(o, l) for o, l in parts]
+        elif kind == "dup": calls = [fr(0, i), fr(0, i), fr(i, n_ - i)]
+        elif kind == "overlap": calls = [fr(0, i), fr(max(0, i - 1), n_ - max(0, i - 1))]
+        elif kind == "overlap2": calls = [fr(0, min(n_, i + 2)), fr(1, max(1, n_ - i - 2))]
+        elif kind == "zero": calls = [fr(0, i), fr(i, 0), fr(i, n_ - i)]
+        elif kind == "zerohang": calls = [fr(0, i), fr(i, 0), fr(1, n_ - i, data=B[1:1 + n_ - i])]
+        elif kind == "gap": calls = [fr(0, max(1, i - 1)), fr(i, n_ - i)]
+        elif kind == "hslen": calls = [fr(i, n_ - i), fr(0, i, hsl=i), fr(0, i, hsl=n_ - i), fr(0, i)]
+        elif kind == "msn": calls = [fr(0, i), fr(i, n_ - i, m=msn + 1), fr(i, n_ - i)]
+        elif kind == "many": calls = [fr(j, 1) for j in range(min(n_, 19))]
+        elif kind == "range":
+            o2, l2 = r.choice([(0, H + 1), (1, H), (H, 1), (H - 1, 2), (0xFFFFFF, 1), (0, 0xFFFFFF), (H, 0), (0, 0), (1, 0), (0, 59000)])
+            calls = [fr(0, i)] * r.choice([0, 1]) + [fr(o2, l2, data=B[:min(n_, 10)])]
+        elif kind == "biglen": calls = [fr(0, 10, hsl=r.choice([60000, 65536, 65537, 0xFFFFFF]), data=(B + bytes(10))[:10])]
+        elif kind == "unfragshort": calls = [fr(0, H + 50, hsl=H + 50, data=B)]
+        elif kind == "whole": calls = [fr(0, H, data=B)]
+        elif kind == "beyond": calls = [fr(0, i, data=B[:max(0, i - r.choice([1, 2, i]))])]
+        else: calls = [fr(0, i), fr(0, max(1, i - 1)), fr(i, n_ - i)]
+        out.append("u dtls %s %d %s %s" % (cfg, k, side, " ".join(vlib.hexs(c) for c in calls)))
+    return out
+
+
+RC = {"SUCCESS": 0, "RETRANSMIT": -61, "SEND": -52, "ERROR": -12, "ALERT": -54, "PARTIAL": -51, "FULL": -50, "DATA": -53}
+
+
+def gen_api(r, n):
+    """scripted decoder answers inside the interface contract (+ a few outside: the Fault / sanitizer coincidence)"""
+    out = []
+    for j in range(n):
+        insize = r.choice([1500, 1500, 64, 5000, 16384, 65535]); outsize = r.choice([1500, 1500, 100, 20000])
+        outlen = r.choice([0, 0, 0, 10, min(outsize, 1400)])
+        nin = r.randrange(1, min(insize, 3000) + 1)
+        inlen, script, outside = nin, [], (j % 12 == 11)
+        for step in range(r.choice([1, 2, 3, 5, 8])):
+            kind = r.choice(["SUCCESS", "SUCCESS", "SUCCESS", "PARTIAL", "FULL", "SEND", "ALERT", "DATA", "ERROR", "OTHER"])
+            if kind == "SUCCESS":
+                mv = r.choice([inlen, inlen, r.randrange(1, inlen + 1) if inlen > 0 else 0])
+                if outside and r.random() < 0.5: mv = inlen + r.choice([1, 5, 17])
+                script.append((0, mv, 0, 0, 0, 255, 0, r.choice([0, 0, 1]))); inlen -= mv
+                if inlen <= 0: break
+            elif kind == "PARTIAL":
+                script.append((-51, 0, 0, r.choice([5, inlen + 10, insize + 1, 20000, 65535, 65536, 70000]), 0, 255, 0, 0)); break
+            elif kind == "FULL":
+                script.append((-50, 0, 0, r.choice([insize + 1, insize + 500, 65535, 65536, 10]), 0, 255, 0, 0)); inlen = 0
+            elif kind == "SEND":
+                ln = r.choice([7, 31, min(insize, 600), min(insize, 1500)])     # inbuf may have been shrunk back to its default by then
+                if outside and r.random() < 0.5: ln = insize + 9
+                script.append((-52, 0, ln, 0, 0, r.choice([255, 40, 50]), 0, 0)); break
+            elif kind in ("ALERT", "DATA"):
+                if inlen < 6: continue
+                mv = r.randrange(6, inlen + 1)
+                ct = mv if r.random() < 0.7 else r.randrange(5, mv + 1)      # a record is at least its header
+                script.append((RC[kind], mv, 2 if kind == "ALERT" else max(0, ct - 5), 0, 0, 0, ct, r.choice([0, 1]))); inlen -= mv
+            elif kind == "ERROR":
+                script.append((-12, 0, 0, 0, r.choice([-12, -8, -1, -6]), 255, 0, 0)); break
+            else:
+                script.append((r.choice([-63, -62, -55, -1, 3, 9]), 0, 0, 0, 0, 255, 0, 0)); break
+        out.append("u api t12 1 c %d %d %d %d %s %s" % (insize, outsize, outlen, nin, ",".join(":".join(str(x) for x in e) for e in script),
+                                                        "outside" if outside else "inside"))
+    return out
+
+
+def gen_cbc(r, n):
+    out = []
+    for _ in range(n):
+        cfg, ver = r.choice([("t12cbc", b"\x03\x03"), ("t11", b"\x03\x02"), ("t12rsa", b"\x03\x03")])
+        L = r.choice([1, 15, 16, 17, 20, 21, 32, 33, 36, 37, 48, 49, 52, 53, 64, 80, 96, 100, 256, 300])
+        body = bytearray(r.randrange(256) for _ in range(L))
+        pad = r.choice([0, 1, 3, 15, 16, 31, L - 1 & 0xFF, (L - 33) & 0xFF, (L - 49) & 0xFF, (L - 48) & 0xFF, 255, r.randrange(256)])
+        for j in range(min(L, pad + 1) if r.random() < 0.7 else 1): body[L - 1 - j] = pad
+        body[L - 1] = pad
+        k = 6 if cfg == "t12rsa" else 7
+        out.append("u cbc %s %d s %s" % (cfg, k, vlib.hexs(tls_rec(bytes(body), ver))))
+    return out
+
+
+PRE_RE = re.compile(r"^pre=(\S+) (.*)$")
+SESS = {}       # (cfg, k, side) -> "head actv supp hs" learnt from a `u hdr` probe
+
+
+def model_line(case, impl):
+    """driver input for a harness case, using the session state the implementation logged"""
+    t = case.split()
+    op = t[1]
+    if op == "hdr":
+        m = PRE_RE.match(impl)
+        if not m: return None, impl
+        f = m.group(1).split(":")
+        return "hdr %s %s" % (" ".join(f), t[9]), m.group(2)
+    if op == "cbc":
+        m = PRE_RE.match(impl)
+        if not m: return None, impl
+        mac, blk, eiv, sec = m.group(1).split(":")
+        rec = vlib.unhex(t[5]); L = len(rec) - 5
+        pad = rec[-1]
+        eq = int(all(x == pad for x in rec[max(5, len(rec) - 1 - pad):]))
+        return "cbc %d %s %s %d %s 0 %d" % (L, mac, blk, pad, eiv, eq), m.group(2)
+    if op == "api":
+        return "api %s %s %s 1500 %s %s" % (t[5], t[6], t[7], t[8], t[9]), impl      # t[10] = inside / outside the contract
+    key = (t[2], t[3], t[4])
+    st = SESS.get(key)
+    if st is None: return None, impl
+    head, actv, supp, hs = st
+    if op == "t13": return "t13 0 %s %s" % (hs, " ".join(t[5:])), impl
+    if op == "tls": return "tls %s %s %s %s %s" % (head, actv, supp, hs, " ".join(t[5:])), impl
+    if op == "dtls": return "dtls %s %s %s %s -1 %s" % (head, actv, supp, hs, " ".join(t[5:])), impl
+    return None, impl
+
+
+def learn_sessions(h):
+    """one probe per session used by the unit operations: record-header length, versions, hsState as the library has them"""
+    keys = [("t12", "1", "c"), ("t12", "0", "s"), ("t11", "1", "c"), ("d12", "1", "c"), ("d12", "0", "s"), ("d10", "1", "c"), ("t13", "1", "c"), ("t13", "0", "s")]
+    lines = ["u hdr %s %s %s - - 0 0 16" % k for k in keys]
+    rc, o, e = vlib.sh([h], inp="\n".join(lines) + "\n", timeout=120)
+    for k, l in zip(keys, o.split("\n")):
+        m = PRE_RE.match(l)
+        if m:
+            f = m.group(1).split(":")
+            SESS[k] = (f[0], f[1], f[2], f[3])
+    return len(SESS) == len(keys)
+
+
+def spec_api(case, impl):
+    """Impl vs Spec for a scripted-decoder case whose answers are inside the interface contract"""
+    if not case.endswith(" inside"): return None
+    if "FAULT" in impl or impl.startswith("CRASH") or impl.startswith("HANG"):
+        return ("api:" + impl.split()[0].lower(), "API buffer loop faulted on decoder answers inside the contract: " + impl[:200])
+    for m in re.finditer(r" (-?\d+):(-?\d+)/(-?\d+):(-?\d+)/(-?\d+)", impl):
+        rc, il, isz, ol, osz = (int(x) for x in m.groups())
+        if not (0 <= il <= isz <= 65535) or not (0 <= ol <= osz):
+            return ("bounds:api", "0 <= inlen <= insize <= SSL_MAX_BUF_SIZE violated: inlen=%d insize=%d outlen=%d outsize=%d" % (il, isz, ol, osz))
+        if not (0 <= rc <= 7 or rc in (-1, -6, -7, -8, -9, -10, -11, -12, -13, -14, -31, -36, -41)):
+            return ("badrc:%d" % rc, "undocumented return code %d" % rc)
+    return None
+
+
+def spec_dtls(case, impl):
+    """Impl vs Spec: a message is handed to the parser out of ssl->fragMessage only if the fragments sent so far cover it"""
+    t = case.split()
+    segs = impl.split(" | ")
+    sent = []
+    for i, hx in enumerate(t[5:]):
+        b = vlib.unhex(hx)
+        if len(b) >= 25:
+            sent.append((int.from_bytes(b[19:22], "big"), int.from_bytes(b[22:25], "big"), len(b) - 25))
+        if i >= len(segs): break
+        sg = segs[i]
+        if " F" in sg:
+            m = re.search(r"fs=(\d+)", sg)
+            H = int(m.group(1)) if m else 0
+            cov = bytearray(H)
+            for (o, l, have) in sent:
+                for j in range(o, min(H, o + min(l, have))): cov[j] = 1
+            if H and not all(cov):
+                return ("uninit:reassembly-hole", "message of %d bytes handed to the parser although the fragments received leave byte %d unwritten" % (H, cov.index(0)))
+            break
+    return None
+
+
+def is_finding_free(impl_line):
+    return not (impl_line.startswith("FAULT") or impl_line.startswith("HANG") or impl_line.startswith("CRASH") or impl_line.startswith("LEAK"))
+
+
+# ------------------------------------------------------------------ the check
+def explore(ck, h, quick_per_state, thorough_per_state):
+    caps = capture(h, CFGS)
+    bad = [c for c in CFGS if caps.get(c, (None,))[0] is None]
+    for c in CFGS:
+        units, done = caps.get(c, (None, ""))
+        if units is None:
+            ck.spec_violation("legal-handshake:%s" % c, "the legal %s handshake does not run under the sanitizers: %s" % (c, done),
+                              {"harness": "h_wire", "case": "cap %s" % c, "observed": str(done)[:1500]})
+        elif done != "11":
+            ck.spec_violation("legal-handshake-incomplete:%s" % c, "the legal %s handshake did not complete (done=%s)" % (c, done),
+                              {"harness": "h_wire", "case": "cap %s" % c})
+    classes = {}
+    cases = build_cases(caps, ck.rng("explore"), ck.budget(quick_per_state, thorough_per_state), classes)
+    lines = [c[1] for c in cases]
+    corp = corpus_lines("x")
+    lines = corp + lines
+    t = time.time()
+    outs, errs = run_parallel(h, lines, nproc=4)
+    ck.log("exploration: %d cases (%d corpus, %d classes, %d states) in %.1fs" % (len(lines), len(corp), len(classes),
+           sum(len(caps[c][0]) for c in caps if caps[c][0]), time.time() - t))
+    nfind = 0
+    for i, (l, o) in enumerate(zip(lines, outs)):
+        cl = "corpus" if i < len(corp) else cases[i - len(corp)][0]
+        ck.count("x:" + cl)
+        sg = signature(o)
+        if o.startswith("ok "): ck.count("verdict:" + o.split()[1][:12])
+        if sg:
+            nfind += 1
+            ck.spec_violation(sg[0], "%s (mutation class %s, state %s)" % (sg[1], cl, " ".join(l.split()[1:4])),
+                              {"harness": "h_wire", "case": l, "observed": o, "expected_by_spec": "ok ..."})
+        else:
+            ck.add_distinct("x" + l[:200])
+    ck.cov["evaluations"] += len(lines)
+    ck.cov["exploration_cases"] = len(lines)
+    ck.cov["exploration_findings"] = nfind
+    ck.cov["mutation_classes"] = sorted(classes)
+    ck.cov["states_explored"] = {c: len(caps[c][0]) for c in caps if caps[c][0]}
+    return caps
+
+
+def run(ck):
+    ck.trusted += ["Coq 8.16.1 kernel (coqc; vm_compute only in the witness lemmas and Examples)",
+                   "tools/srcgen/consts.c, consts_dtls.c, consts_wire.c translators (C compiler / psVerFromEncoding evaluate the constants and the version table)",
+                   "extraction (ExtrOcamlBasic only) + ocaml/drv_c08.ml",
+                   "harness/h_wire.c + sess.h (ASan+UBSan+LSan build; link-time wraps of entropy/clock, sslUpdateHSHash (logging), matrixSslDecode (scripted for `u api`); decrypt/verifyMac spies and null cipher through the ssl_t function pointers)",
+                   "modelled, not verified: coq/Wire/WireModel.v is a hand-written transcription of the framing code, compared with the library on every run",
+                   "gcc AddressSanitizer / UndefinedBehaviorSanitizer / LeakSanitizer as the oracle for faults outside the model"]
+    ck.assumptions += ["record-layer session state is well formed: recordHeadLen is 13 exactly for sessions created with SSL_FLAGS_DTLS (matrixssl.c 615-636; checked by the `u hdr` probes)",
+                       "oracle contracts (coq/Wire/WireSpec.v dec_contract): on MATRIXSSL_SUCCESS / DTLS_RETRANSMIT / SSL_ALERT / SSL_PROCESS_DATA the decoder moved *buf by at most *len and by at least 1 when data is left; an SSL_SEND_RESPONSE fits inbuf and (appended) SSL_MAX_BUF_SIZE; MATRIXSSL_ERROR carries a documented negative code - the modelled header/CCS/handshake loops are proved to satisfy the first part, the unmodelled parsers are explored only",
+                       "the application passes matrixSslReceivedData at most the room matrixSslGetReadbuf returned",
+                       "message and extension parsers (EXPLORED_ONLY) enter the theorems as arbitrary functions: nothing is proved about them"]
+    ck.cov["explored_only"] = EXPLORED_ONLY
+    ck.build_repo()
+    ck.regen([("consts.sh",)])
+    import threading
+    asan_err = []
+    th = threading.Thread(target=lambda: ck.build_repo("asan"))       # ~25 s, overlaps with the Coq build
+    th.start()
+    ck.coq_properties()
+    drv = ck.ocaml_driver("drv_c08", extract_vo="Extract/Extract_C08.vo", gen_ml=["m_c08"])
+    th.join()
+    h = ck.cc("h_wire.c", variant="asan", wraps=WRAPS + ["matrixSslDecode"])
+    if drv is None:
+        return
+    # ---- (ii) exploration first: a sanitizer finding on a legal handshake would make everything else meaningless
+    explore(ck, h, 28, 260)
+    # ---- (i) unit operations against the model
+    if not learn_sessions(h):
+        ck.violation("h_wire could not create the sessions of the unit operations", {"stage": "unit-probe", "broken": "correspondence h_wire/u"}, found_input=False)
+        return
+    r = ck.rng("unit")
+    groups = [("record header + DTLS epoch gate: decode12 vs matrixSslDecode", gen_hdr(r, ck.budget(500, 6000)), "hdr"),
+              ("TLS 1.3 header/CCS loop + handshake reassembly: hdr13/hs13_loop vs matrixSslDecode", gen_t13(r, ck.budget(300, 4000)), "t13"),
+              ("TLS handshake reassembly: hs_record_tls vs matrixSslDecode", gen_tls(r, ck.budget(300, 4000)), "tls"),
+              ("DTLS handshake reassembly: hs_record_dtls vs matrixSslDecode", gen_dtls(r, ck.budget(400, 5000)), "dtls"),
+              ("API buffer arithmetic: received_data/processed_data vs matrixSslReceivedData (scripted decoder)", gen_api(r, ck.budget(300, 4000)), "api"),
+              ("CBC pad/MAC layout: cbc_mac_layout vs verifyMac arguments", gen_cbc(r, ck.budget(200, 3000)), "cbc")]
+    for name, cases, op in groups:
+        cases = corpus_lines("u-" + op) + cases
+        cases = sorted(set(cases), key=cases.index)
+        cases.sort(key=lambda l: tuple(l.split()[2:5]))          # keep the cases of one session state together
+        impl, errs = run_parallel(h, cases, nproc=4)
+        mlines, impl_cmp, keep = [], [], []
+        for c, o in zip(cases, impl):
+            ml, oc = model_line(c, o)
+            if ml is None:
+                # a sanitizer report / hang instead of a result line: the model must say Fault / OutOfFuel for the same case
+                ml, oc = model_line(c, "pre=%s X" % ":".join(SESS.get((c.split()[2], c.split()[3], c.split()[4]), ("0",) * 4) + ("0",) * 6)) if c.split()[1] == "hdr" else (None, o)
+                if ml is None:
+                    ck.spec_violation(signature(o)[0] if signature(o) else "unit:noresult", "unit operation gave no result line: %s" % o[:200],
+                                      {"harness": "h_wire", "case": c, "observed": o})
+                    continue
+                oc = o
+            mlines.append(ml); impl_cmp.append(oc); keep.append(c)
+        rc, model, _ = ck.run_lines(drv, mlines)
+        pairs = [canon_pair(x, y) for x, y in zip(impl_cmp, model[:len(mlines)])]
+        impl_c = [p[0] for p in pairs]; model_c = [p[1] for p in pairs]
+        # a sanitizer report must coincide with a model Fault, a watchdog hit with OutOfFuel
+        impl_c = ["FAULT" if x.startswith("FAULT") or x.startswith("CRASH") or x.endswith(" FAULT") else x for x in impl_c]
+        model_c = [re.sub(r"^(FAULT|HANG).*", r"\1", x) if ("FAULT" in x or "HANG" in x) else x for x in model_c]
+        model_c = ["FAULT" if "FAULT" in x else ("HANG" if "HANG" in x else x) for x in model_c]
+        dis = ck.correspond(name, keep, impl_c, model_c, nontrivial=lambda c, o: not o.startswith("P ") and "BAD" not in o)
+        for i in dis[:3]:
+            ck.log("  disagreement: %s\n     impl : %s\n     model: %s" % (keep[i][:300], impl_c[i][:300] if i < len(impl_c) else None, model_c[i][:300] if i < len(model_c) else None))
+        for c, o in zip(keep, impl_cmp):
+            sv = spec_api(c, o) if op == "api" else spec_dtls(c, o) if op == "dtls" else None
+            if sv: ck.spec_violation(sv[0], sv[1], {"harness": "h_wire", "case": c, "observed": o[:600]})
+        for c, o in zip(keep, impl_c):
+            ck.count("u:%s:%s" % (op, "handoff" if "handoff" in o else o.split()[0] if o else "empty"))
+            if op != "api" and (o == "FAULT" or o.startswith("HANG") or o.startswith("LEAK")):
+                sg = signature(impl_cmp[keep.index(c)]) or ("unit:" + o, o)
+                ck.spec_violation(sg[0], "unit operation on the modelled code: %s" % sg[1], {"harness": "h_wire", "case": c, "observed": o})
+    ck.rules.append("exploration: real transcripts of %d configurations (TLS 1.1/1.2 GCM/CBC/RSA/ECDSA/client-auth, TLS 1.3 AES/ChaCha/client-auth, DTLS 1.0/1.2 "
+                    "incl. fragmented flights) replayed to every prefix state, both roles; per state a stratified sample of %d mutation classes (truncation at every byte, "
+                    "record/handshake/extension length fields, types, versions, epochs, fragment splits at every offset for TLS / TLS 1.3 / DTLS incl. overlap, gap, "
+                    "duplicate, zero-length, >16 fragments, coalescing, junk, bit flips, vector growth); encrypted states with chosen plaintext through a null cipher of "
+                    "the same geometry; every case in a forked child, input buffer re-allocated to fit exactly" % (len(CFGS), 52))
+    ck.rules.append("unit operations: generated per case split of the proofs (header lengths 0/1/max/max+1/0xFFFF, every version code, DTLS epoch/replay combinations and "
+                    "multi-record datagrams, CCS runs, handshake length limits 1024/65536 +-1, fragment offsets/lengths around every boundary, scripted decoder answers "
+                    "inside and outside the contract, CBC pad bytes around every boundary); non-trivial = not a plain SSL_PARTIAL")
+    ck.cov["exhaustive"] = False
+
+
+def replay(ck, path):
+    rp = json.load(open(path))["replay"]
+    ck.build_repo("asan")
+    h = ck.cc("h_wire.c", variant="asan", wraps=WRAPS + ["matrixSslDecode"])
+    cs = rp.get("cases") or [rp["case"]]
+    rc, out, err = ck.run_lines(h, cs)
+    for c, o in zip(cs, out):
+        print("case:", c[:400]); print("  impl:", o, "  spec: a clean `ok ...` line / agreement with the model")
